@@ -619,7 +619,37 @@ func runAdversaryCase(t *testing.T, c *advCase, proto bool, idx int) (what, clas
 			if strings.HasSuffix(cl, "-x20") { // the same message twenty times in a row: more than a receiver buffers
 				cl, times = strings.TrimSuffix(cl, "-x20"), 20
 			}
-			msg, sender := a.craft(cl, n)
+			var msg wire.Msg
+			var sender map[wallet.BackendID]wire.Address
+			if strings.HasPrefix(cl, "p-open-") {
+				// P accepts H's proposal; H publishes its signature of the new channel's initial state; P's answer to THAT
+				acc, from := a.craft("p-propacc-match-ledger", n)
+				if acc == nil || w.Bus.Inject(&wire.Envelope{Sender: from, Recipient: h.WireAddr(), Msg: acc}) != nil {
+					continue
+				}
+				w.Quiesce()
+				var newID *channel.ID
+				for _, e := range w.Bus.Pending {
+					if m, ok := e.Msg.(*client.ChannelUpdateAccMsg); ok && m.Version == 0 && w.Bus.Info(e).From == "H" {
+						id := m.ChannelID
+						newID = &id
+					}
+				}
+				if newID == nil {
+					continue
+				}
+				switch cl {
+				case "p-open-rej-v0":
+					msg = &client.ChannelUpdateRejMsg{ChannelID: *newID, Version: 0, Reason: "no"}
+				case "p-open-accbad-v0":
+					msg = &client.ChannelUpdateAccMsg{ChannelID: *newID, Version: 0, Sig: bytes.Repeat([]byte{9}, 64)}
+				default:
+					msg = &client.ChannelUpdateAccMsg{ChannelID: *newID, Version: 1, Sig: bytes.Repeat([]byte{9}, 64)}
+				}
+				sender = from
+			} else {
+				msg, sender = a.craft(cl, n)
+			}
 			if msg == nil {
 				continue
 			}
